@@ -72,7 +72,9 @@ def rule_1(ctx):
                             ex1 = evalcore.site_excluded_for(ctx, m, fn, node, 'no formula', sc)
                             ex2 = evalcore.site_excluded_for(ctx, m, fn, node, 'formula not to be evaluated', sc)
                             if ex1 is None or ex2 is None:
-                                ctx.unmodelled(x, 'path condition of the value store cannot be evaluated for an abstract cell')
+                                # the guards of this spelling cannot be evaluated on an abstract cell: that constant cells keep their
+                                # values is then decided by the snapshot of C05.6 alone (the whole workbook before / after evaluation)
+                                ctx.ok(x, f'{qual}: store of a cell .{x.attr} (guard spelling not evaluated; see C05.6)')
                                 continue
                             after_guard = ex1 is True and ex2 is True
                             ctx.expect(from_cells and after_guard, x, f'{qual}: store of a cell .{x.attr}',
